@@ -156,7 +156,22 @@ bool StepScript(InterpreterEnv& env)
         env.execdata_history.push_back(env.execdata);
         env.opcode_pos_history.push_back(env.opcode_pos);
 
-        if (!StepScript(env, pc)) {
+        bool stepped;
+        try {
+            stepped = StepScript(env, pc);
+        } catch (...) {
+            // a failing operation may also throw (script number errors): drop its history entry as well
+            env.stack_history.pop_back();
+            env.altstack_history.pop_back();
+            env.pc_history.pop_back();
+            env.nOpCount_history.pop_back();
+            env.vfExec_history.pop_back();
+            env.pbegincodehash_history.pop_back();
+            env.execdata_history.pop_back();
+            env.opcode_pos_history.pop_back();
+            throw;
+        }
+        if (!stepped) {
             // undo above pushes
             env.stack_history.pop_back();
             env.altstack_history.pop_back();
